@@ -26,6 +26,7 @@ type SolverCfg struct {
 	Jobs      int
 	AllAgree  bool // thorough: run every solver and compare
 	Keep      bool
+	StageMS   int // time limit of the cheap stages (default 6000)
 }
 
 type solverRes struct {
@@ -147,7 +148,11 @@ func Solve(o *Obligation, cfg *SolverCfg, idx int) {
 		for vi, v := range vars {
 			f0 := filepath.Join(cfg.WorkDir, fmt.Sprintf("o%05d.s%d.smt2", idx, vi))
 			os.WriteFile(f0, []byte(v.text), 0o644)
-			r := runSolver(context.Background(), "z3-new", f0, 2500, cfg.Seed)
+			stageMS := cfg.StageMS
+			if stageMS == 0 {
+				stageMS = 6000
+			}
+			r := runSolver(context.Background(), "z3-new", f0, stageMS, cfg.Seed)
 			if !cfg.Keep {
 				os.Remove(f0)
 			}
